@@ -1,6 +1,6 @@
 (* EstRun.v — run commands of the `formats` family (drivers only). *)
 From Coq Require Import String.
-From Cedar Require Export Codec EstPolicy.
+From Cedar Require Export Codec EstSet.
 Open Scope string_scope.
 
 Fixpoint d_json (s : sexp) : option json :=
@@ -129,9 +129,35 @@ Definition run_est_to_template (args : list sexp) : sexp :=
   | _ => bad_input
   end.
 
+Definition e_env (env : slotenv) : sexp := e_list (fun su => SL [e_slot (fst su); e_uid (snd su)]) env.
+Definition e_pol (p : policy) : sexp :=
+  SL [SY "policy"; e_template (ptemplate p); e_opt SS (plink p); e_env (penv p)].
+Definition e_pset (s : pset) : sexp :=
+  SL [SY "pset"; e_list (fun it => e_template (snd it)) (ps_templates s);
+      e_list (fun it => SL [SS (fst it); e_pol (snd it)]) (ps_links s)].
+
+(* (est_to_pset <json>) : the ast-level set built from a policy-set document *)
+Definition run_est_to_pset (args : list sexp) : sexp :=
+  match args with
+  | [j] => match d_json j with Some j => e_res e_pset (est_to_pset j) | None => bad_input end
+  | _ => bad_input
+  end.
+
+(* (set_rt <json>) : the document produced from the set built from the document *)
+Definition run_set_rt (args : list sexp) : sexp :=
+  match args with
+  | [j] => match d_json j with
+           | Some j => e_res e_json (do s <- est_to_pset j; Ok (estset_to_est (pset_to_estset s)))
+           | None => bad_input
+           end
+  | _ => bad_input
+  end.
+
 Definition run_formats (cmd : string) (args : list sexp) : option sexp :=
   if sym_eqb cmd "est_of_body" then Some (run_est_of_body args)
   else if sym_eqb cmd "est_conditions" then Some (run_est_conditions args)
   else if sym_eqb cmd "template_to_est" then Some (run_template_to_est args)
   else if sym_eqb cmd "est_to_template" then Some (run_est_to_template args)
+  else if sym_eqb cmd "est_to_pset" then Some (run_est_to_pset args)
+  else if sym_eqb cmd "set_rt" then Some (run_set_rt args)
   else None.
